@@ -222,3 +222,67 @@ def replay_case(job):
     out["evaluations"] += 1
     collect(out, job, run, m, (0, 0), nontriv_fn)
     return out
+
+
+CORPUS_DIR = "orquesta/tests/fixtures/workflows/native"
+
+
+def _int_join_smaller_than_fan_in(wf):
+    """static zone predicate of finding F1 for definitions that have no Model"""
+    tasks = wf.get("tasks") or {}
+    fan = {}
+    for nm, t in tasks.items():
+        for tr in t.get("next") or []:
+            do = tr.get("do") or []
+            if isinstance(do, str):
+                do = [x.strip() for x in do.split(",")]
+            for d in set(do):
+                fan.setdefault(d, set()).add(nm)
+    for nm, t in tasks.items():
+        j = t.get("join")
+        if isinstance(j, int) and not isinstance(j, bool) and len(fan.get(nm, ())) > j:
+            return True
+    return False
+
+
+def corpus(job):
+    """the repository's own fixture definitions as realistic shapes, with generated outcomes, schedules and control
+    requests; no Model exists for them, so only the state-independent monitors decide (status, quiescence,
+    terminal, append-only, double poll, with-items window)"""
+    import glob
+    import os
+
+    import yaml
+    pmod = importlib.import_module(job["mod"])
+    nontriv_fn = getattr(pmod, "nontrivial", None)
+    out = dict(evaluations=0, nontrivial=set(), violations=[], samples=[], counters={}, sets={})
+    C = out["counters"]
+    files = sorted(glob.glob(os.path.join(env.REPO, CORPUS_DIR, "*.yaml")))
+    for fi, f in enumerate(files):
+        if fi % job.get("parts", 1) != job.get("part", 0):
+            continue
+        with open(f) as fh:
+            wf = yaml.safe_load(fh)
+        try:
+            if not inspect_ok(wf):
+                C["corpus_rejected"] = C.get("corpus_rejected", 0) + 1
+                continue
+        except Exception:
+            C["corpus_unloadable"] = C.get("corpus_unloadable", 0) + 1
+            continue
+        if _int_join_smaller_than_fan_in(wf):
+            C["corpus_in_finding_zone_skipped"] = C.get("corpus_in_finding_zone_skipped", 0) + 1
+            continue
+        C["corpus_definitions"] = C.get("corpus_definitions", 0) + 1
+        out["sets"].setdefault("corpus_files", set()).add(os.path.basename(f))
+        for k in range(job.get("runs", 4)):
+            seed = h64(job.get("gseed", 0), os.path.basename(f), k)
+            ms = [m for m in monitors(job.get("flags")) if m.name != "ledger"]
+            case = dict(wf=wf, inputs={}, oseed=seed % 100000, p_fail=[0.0, 0.15, 0.3][k % 3])
+            run = explore.make_run(case, ms, model=None, label=os.path.basename(f))
+            hook = Injector(seed, job.get("ctl")) if job.get("ctl") and k % 2 else None
+            explore.run_free(run, explore.Policy(pseed=seed, lazy_pct=[0, 40][k % 2]), hook=hook, max_steps=150, max_offers=200)
+            run.finish()
+            out["evaluations"] += 1
+            collect(out, job, run, None, (fi, k), nontriv_fn)
+    return out
